@@ -3,7 +3,7 @@
    LR/Automaton_proofs.v about the models LR/Driver.v (ParserState.feed_token) and
    LR/Automaton.v (lalr_analysis.py). *)
 From Coq Require Import List Arith Bool ZArith.
-From LV Require Import Cfg.Grammar LR.Driver LR.Driver_proofs LR.Automaton LR.Automaton_proofs LR.Automaton_wf LR.Automaton_la LR.Automaton_complete LR.La_complete LR.Lalr_complete LR.Lr1Merge LR.Lr1Merge_proofs.
+From LV Require Import Cfg.Grammar LR.Driver LR.Driver_proofs LR.Automaton LR.Automaton_proofs LR.Automaton_wf LR.Automaton_la LR.Automaton_complete LR.La_complete LR.Lalr_complete LR.Lr1Merge LR.Lr1Merge_proofs LR.Lr1Merge_converse.
 Import ListNotations.
 
 (* "accepts only sentences", for EVERY table in which a reduce by r is only offered in states
@@ -227,7 +227,7 @@ Theorem C02_lr1_exec_subset_la (rules : list rule) (tEND fuel : nat) (A : lr0) (
 Proof. exact (exec_lr1_subset_la rules tEND fuel A r0 rootnt start fuel1 S1 J). Qed.
 Print Assumptions C02_lr1_exec_subset_la.
 
-(* Inclusion 2 - NOT PROVED, kept as the full statement.  It needs productive rule bodies: with a
+(* Inclusion 2 - the full statement (proved below as C02_la_subset_lr1).  It needs productive rule bodies: with a
    non-productive symbol after the dot the DeRemer-Pennello sets are strictly larger than the
    canonical LR(1) ones (found by the search: start: D | C a C | A a; a: b start b; b: a a).
    It is validated on every run, inside Coq: check_lr1 (LR/Lr1Merge.v) evaluates the executable
@@ -241,6 +241,57 @@ Definition C02_la_subset_lr1_full_statement : Prop :=
   (forall r d, In r rules -> exists u, derives rules nat (tmatch nat (fun k => k)) (skipn d (rhs r)) u) ->
   In (q, a, i) (la_triples (compute_relations rules [r0] tEND A)) ->
   exists g, goto_star A 0 g = Some q /\ lr1_valid rules r0 tEND g i (length (rhs (rule_at rules i))) a.
+
+(* Round 9: inclusion 2 is now a theorem (the round-8 full statement, proved as stated; its
+   freshness hypothesis is not even needed).  Route (LR/Lr1Merge_converse.v): leastness of Read and
+   Follow (C02_la_closure) is used as an induction principle.
+     C02_read_witness    t in Read(p,A)  : an LR(0) item of p with the dot before A has t in the
+                         inductive FIRST of its remainder, or (p,A) = (0,start) and t = $END
+                         (holds for every grammar);
+     C02_follow_witness  t in Follow(p,A): for SOME symbol string g leading to p there is a valid
+                         LR(1) item [B -> alpha . A beta, u] for g with t in FIRST(beta u)
+                         (needs: every LR(0) state is reached by some string, and - productivity -
+                         every LR(0) item of the state reached by g is LR(1)-valid for g);
+   lookback then advances the initial item [A -> . w, t] over w. *)
+Theorem C02_read_witness (rules : list rule) (tEND fuel : nat) (A : lr0) (r0 rootnt start : nat) (k t : nat) (x : ntrans) :
+  build_lr0 rules [r0] fuel = Some A -> r0 < length rules ->
+  rule_at rules r0 = mkRule rootnt [NT start] ->
+  M (read_sets (compute_relations rules [r0] tEND A)) k t ->
+  nth_error (nt_transitions rules A) k = Some x ->
+  R0' rules tEND A start x t.
+Proof. exact (fun HB Hv Hr0 Hm => read_witness rules tEND fuel A r0 rootnt start HB Hv Hr0 k t Hm x). Qed.
+Print Assumptions C02_read_witness.
+
+Theorem C02_follow_witness (rules : list rule) (tEND fuel : nat) (A : lr0) (r0 rootnt start : nat) (k t : nat) (x : ntrans) :
+  build_lr0 rules [r0] fuel = Some A -> r0 < length rules ->
+  rule_at rules r0 = mkRule rootnt [NT start] ->
+  (forall r d, In r rules -> exists u, derives rules nat (tmatch nat (fun k => k)) (skipn d (rhs r)) u) ->
+  M (follow_sets (compute_relations rules [r0] tEND A)) k t ->
+  nth_error (nt_transitions rules A) k = Some x ->
+  W rules tEND A r0 x t.
+Proof. exact (fun HB Hv Hr0 Hp Hm => follow_witness rules tEND fuel A r0 rootnt start HB Hv Hr0 Hp k t Hm x). Qed.
+Print Assumptions C02_follow_witness.
+
+Theorem C02_la_subset_lr1 : C02_la_subset_lr1_full_statement.
+Proof.
+  exact (fun rules tEND fuel A r0 rootnt start q a i HB Hr0 _ Hp =>
+           la_subset_lr1 rules tEND fuel A r0 rootnt start HB (root_index_valid rules r0 rootnt start Hr0) Hr0 Hp q a i).
+Qed.
+Print Assumptions C02_la_subset_lr1.
+
+(* The clause "the set of token types the parser can consume next is that of the LALR(1) automaton":
+   for grammars with productive rule bodies the model's look-ahead set of every non-root rule in
+   every LR(0) state is EXACTLY the union, over the symbol strings leading to that state, of the
+   canonical LR(1) look-aheads of the complete item. *)
+Theorem C02_la_is_lalr1 (rules : list rule) (tEND fuel : nat) (A : lr0) (r0 rootnt start q a i : nat) :
+  build_lr0 rules [r0] fuel = Some A ->
+  rule_at rules r0 = mkRule rootnt [NT start] ->
+  (forall r d, In r rules -> exists u, derives rules nat (tmatch nat (fun k => k)) (skipn d (rhs r)) u) ->
+  i <> r0 ->
+  (In (q, a, i) (la_triples (compute_relations rules [r0] tEND A)) <->
+   exists g, goto_star A 0 g = Some q /\ lr1_valid rules r0 tEND g i (length (rhs (rule_at rules i))) a).
+Proof. exact (la_is_lalr1 rules tEND fuel A r0 rootnt start q a i). Qed.
+Print Assumptions C02_la_is_lalr1.
 
 (* Non-vacuity: the grammar of finding F13 (LALR(1), shared core {b: B., e2: B.}):
      start: a E | c | Y e2 D    a: Y b    c: Y a D    b: B    e2: B
